@@ -90,7 +90,7 @@ package annotations
 // receiver type name as written: *T -> T, T -> T, anything else -> ""
 //@ macro func recvTypeName(e ast.Expr) string = typeis(e, *ast.StarExpr) ? (typeis(cast(e, *ast.StarExpr).X, *ast.Ident) ? cast(cast(e, *ast.StarExpr).X, *ast.Ident).Name : "") : (typeis(e, *ast.Ident) ? cast(e, *ast.Ident).Name : "")
 //@ func ExtractReceiverType
-//@   props C03 C15 C10
+//@   props C03 C15 C10 C13
 //@   ensures result == recvTypeName(expr)
 //@   assigns nothing
 
@@ -144,7 +144,7 @@ package annotations
 //@   loop 1 invariant contains(allowedPackages, currentPkgPath) && (forall k int :: 0 <= k && k < $i && strings.TrimSpace($seq[k]) != "" ==> contains(allowedPackages, strings.TrimSpace($seq[k])))
 
 //@ func getFuncKindAndReceiver
-//@   props C15 C03 C04 C10
+//@   props C15 C03 C04 C10 C13
 //@   ensures result0 == funcKind(funcDecl) && result1 == funcRecv(funcDecl)
 //@   assigns nothing
 //@ macro func isMethodDecl(fd *ast.FuncDecl) bool = fd.Recv != nil && len(fd.Recv.List) > 0
